@@ -72,7 +72,7 @@ def codec_confirm(run):
     return confirm
 
 
-def codec_pipeline(run, setname, extra_cases, rule, assumptions, nontrivial=None, exhaustive_note=None):
+def codec_pipeline(run, setname, extra_cases, rule, assumptions, nontrivial=None, exhaustive_note=None, level="model_checking"):
     cases = run.path("cases.ndjson")
     trace = run.path("trace.ndjson")
     open(cases, "w").close()
@@ -94,7 +94,7 @@ def codec_pipeline(run, setname, extra_cases, rule, assumptions, nontrivial=None
     }
     if exhaustive_note:
         cov["exhaustive_axes"] = exhaustive_note
-    return vlib.finish(run, "model_checking", cov, assumptions, kn, viol, confirm=codec_confirm(run))
+    return vlib.finish(run, level, cov, assumptions, kn, viol, confirm=codec_confirm(run))
 
 
 def count_where(trace, pred):
@@ -243,7 +243,7 @@ def c10(run):
              "buffers (valid continuation, 0xFF, 0x00, plausible bytes) and the outcomes compared; non-trivial = every executed (entry, input) pair",
         assumptions=["the specification contributes the structure of the input space and the totality contract; whether a call panics is only observable on the real code",
                      "fuzz events are logged in full when non-conforming, otherwise a 2% sample is logged (all are executed)"],
-        nontrivial=lambda tr: count_where(tr, lambda e: e.get("op") == "parseany"))
+        nontrivial=lambda tr: count_where(tr, lambda e: e.get("op") == "parseany"), level="exploration")
 
 
 @check("C11")
